@@ -1227,20 +1227,20 @@ def check(ctx):
     ctx.extra_cov["exhaustive_domain"] = f"all canonical CFGs with <= {nmax} blocks, out-degree <= 2"
     if not ctx.thorough:
         four = list(canon_cfgs(4))
-        for cfg in ctx.rng.sample(four, 200):
+        for cfg in ctx.rng.sample(four, 150):
             cases.append(capture_cfg("sample:4", cfg))
     lap("exhaustive")
     # 3a. small structured programs: the fragment the relooper handles (class S, <= SMALL blocks) is where a
     #     regression shows up under a signature that is not a known finding
     seen = set()
-    for _ in range(3000 if ctx.thorough else 400):
+    for _ in range(3000 if ctx.thorough else 300):
         cfg = gen_structured(ctx.rng, budget=ctx.rng.randint(1, 3))
         for c in (cfg, thread_jumps(cfg)):
             if len(c) <= SMALL and tuple(c) not in seen and classify(c) == "S":
                 seen.add(tuple(c))
                 cases.append(capture_cfg("small-structured", c))
     # 3b. structured programs (as laid out by a C compiler, and after jump threading)
-    for _ in range(400 if ctx.thorough else 60):
+    for _ in range(400 if ctx.thorough else 40):
         cfg = gen_structured(ctx.rng)
         cases.append(capture_cfg("structured", cfg))
         t = thread_jumps(cfg)
